@@ -759,6 +759,14 @@ func (c *checker) checkPair(a, b ugo.Object, da, db string, same, exhaustive boo
 	if le2 != (lt2 || eq) {
 		c.report("law:lesseq:"+st, fmt.Sprintf("a=%s b=%s: a<=b=%v but a<b=%v a==b=%v", db, da, le2, lt2, eq), caseData{Op: "<=", A: db, B: da})
 	}
+	// the mirror image of the <= law (a>=b is b<=a)
+	if ge, ge2 := ab.b(iGe), ba.b(iGe); ge != (gt || eq) {
+		c.report("law:greatereq:"+st, fmt.Sprintf("a=%s b=%s: a>=b=%v but a>b=%v a==b=%v", da, db, ge, gt, eq), caseData{Op: ">=", A: da, B: db})
+	} else if ge2 != (gt2 || eq) {
+		c.report("law:greatereq:"+st, fmt.Sprintf("a=%s b=%s: a>=b=%v but a>b=%v a==b=%v", db, da, ge2, gt2, eq), caseData{Op: ">=", A: db, B: da})
+	} else if ge != le2 {
+		c.report("law:mirror:"+st, fmt.Sprintf("a=%s b=%s: a>=b=%v but b<=a=%v", da, db, ge, le2), caseData{Op: ">=", A: da, B: db})
+	}
 	if lt != gt2 {
 		c.report("law:mirror:"+st, fmt.Sprintf("a=%s b=%s: a<b=%v but b>a=%v", da, db, lt, gt2), caseData{Op: "<", A: da, B: db})
 	}
